@@ -369,6 +369,43 @@ def make_emitter(sse, log):
 DT = datetime.datetime(2024, 2, 29, 23, 59, 58)
 DT_AWARE = datetime.datetime(2031, 1, 1, 0, 0, 1, tzinfo=datetime.timezone(datetime.timedelta(hours=-7)))
 
+class StrSub(str):
+    """A str subclass: the server must still get a *native* str (PEP 3333: type(v) is str)."""
+
+
+class Stringable:
+    def __init__(self, text):
+        self.text = text
+
+    def __str__(self):
+        return self.text
+
+
+# non-str header values: falcon documents/implements str(value) for every header-setting method.
+# name -> (callable(resp), {lower-case header name: exact value str(value) the server must get})
+NONSTR_OPS = {
+    'append_first_int': (lambda r: r.append_header('X-Count', 5), {'x-count': '5'}),
+    'append_first_float': (lambda r: r.append_header('X-Ratio', 2.5), {'x-ratio': '2.5'}),
+    'append_first_strsub': (lambda r: r.append_header('X-Sub', StrSub('sub-v')), {'x-sub': 'sub-v'}),
+    'append_first_obj': (lambda r: r.append_header('X-Obj', Stringable('obj-v')), {'x-obj': 'obj-v'}),
+    'append_first_bool': (lambda r: r.append_header('X-Flag', True), {'x-flag': 'True'}),
+    'append_second_int': (lambda r: (r.append_header('X-App', 'a'), r.append_header('x-app', 7)), {'x-app': 'a, 7'}),
+    'append_both_nonstr': (lambda r: (r.append_header('X-Nums', 1), r.append_header('X-NUMS', 2.5),
+                                      r.append_header('x-nums', Stringable('three'))), {'x-nums': '1, 2.5, three'}),
+    'append_after_set_int': (lambda r: (r.set_header('X-Mix', 10), r.append_header('X-Mix', 11)), {'x-mix': '10, 11'}),
+    'set_float': (lambda r: r.set_header('X-F', 0.125), {'x-f': '0.125'}),
+    'set_strsub': (lambda r: r.set_header('X-SS', StrSub('ss')), {'x-ss': 'ss'}),
+    'set_obj': (lambda r: r.set_header('X-SO', Stringable('so v')), {'x-so': 'so v'}),
+    'set_headers_dict_nonstr': (lambda r: r.set_headers({'X-D1': 1, 'X-D2': 2.5, 'X-D3': StrSub('d3'),
+                                                         'X-D4': Stringable('d4')}),
+                                {'x-d1': '1', 'x-d2': '2.5', 'x-d3': 'd3', 'x-d4': 'd4'}),
+    'set_headers_pairs_nonstr': (lambda r: r.set_headers([('X-P1', 1), ('X-P2', Stringable('p2')), ['X-P3', StrSub('p3')],
+                                                          ('X-P4', -0.5)]),
+                                 {'x-p1': '1', 'x-p2': 'p2', 'x-p3': 'p3', 'x-p4': '-0.5'}),
+    'raw_cookie_strsub': (lambda r: r.append_header('Set-Cookie', StrSub('rs=1; Path=/')), {'set-cookie': 'rs=1; Path=/'}),
+    'prop_int': (lambda r: setattr(r, 'retry_after', 120), {'retry-after': '120'}),
+}
+
 # name -> (callable(resp), lower-case header names that must then be present)
 HEADER_OPS = {
     'set_ascii': (lambda r: r.set_header('X-Trace', 'abc-123 ~!'), ['x-trace']),
@@ -430,7 +467,7 @@ def fill(resp, r, obs):
     else:
         resp.status = status
     for name in r.get('headers', []):
-        HEADER_OPS[name][0](resp)
+        (HEADER_OPS.get(name) or NONSTR_OPS[name])[0](resp)
     for name in r.get('cookies', []):
         COOKIE_OPS[name][0](resp)
     ct = r.get('ct')
@@ -787,8 +824,23 @@ def judge(rec, r, res, obs):
 
     # ---- F. cookies and other headers reach the server
     want_names = set()
+    want_exact = {}
     for name in r.get('headers', []):
-        want_names.update(HEADER_OPS[name][1])
+        if name in HEADER_OPS:
+            want_names.update(HEADER_OPS[name][1])
+        else:
+            want_exact.update(NONSTR_OPS[name][1])
+    if want_exact:
+        # the pairs themselves (native str / bytes) are judged by the drivers' monitors (res.problems above)
+        mon('nonstr_header_value_as_str')
+        for n, v in sorted(want_exact.items()):
+            got = res.header_values(n)
+            if n == 'set-cookie':
+                ok = v in got
+            else:
+                ok = got == [v]
+            if not ok:
+                bad('header-value-not-str-of-value', name=n, got=got, want=v)
     if want_names:
         mon('headers_present')
         for n in sorted(want_names):
@@ -799,6 +851,7 @@ def judge(rec, r, res, obs):
         for name in r['cookies']:
             jar.update(COOKIE_OPS[name][1])
             raw += COOKIE_OPS[name][2]
+        raw += sum(1 for h in r.get('headers', []) if h == 'raw_cookie_strsub')
         mon('set_cookie_lines')
         if len(res.header_values('set-cookie')) != len(jar) + raw:
             bad('set-cookie-count', got=res.header_values('set-cookie'), want=len(jar) + raw)
@@ -1004,6 +1057,12 @@ def decor_cases(stack):
                 for op in sorted(COOKIE_OPS):
                     n += 1
                     yield dict(base, cookies=[op], rc=RESP_CLASSES[n % 3], data=b'd' if n % 2 else None)
+                for op in sorted(NONSTR_OPS):
+                    n += 1
+                    yield dict(base, headers=[op], rc=RESP_CLASSES[n % 3], text='t' if n % 2 else None)
+                    rec_ops = [op] + [o for o in ('set_ascii', 'append_twice') if n % 2]
+                    yield dict(base, headers=rec_ops, cookies=['basic', 'raw'], rc=RESP_CLASSES[(n + 1) % 3])
+                yield dict(base, headers=sorted(NONSTR_OPS))
                 yield dict(base, headers=sorted(HEADER_OPS)[:12], cookies=sorted(COOKIE_OPS))
                 yield dict(base, headers=[h for h in sorted(HEADER_OPS)[12:] if h != 'viewable_as'],
                            cookies=sorted(COOKIE_OPS), media=['set', [1]])
@@ -1166,6 +1225,11 @@ def gen_recipe(rng):
         r['cl'] = rng.choice([['prop', rng.choice([0, 3, 99999])], ['header', str(rng.choice([0, 1, 12345]))]])
     if rng.random() < 0.4:
         r['headers'] = rng.sample(sorted(HEADER_OPS), rng.randint(1, 4))
+        if rng.random() < 0.4:
+            r['headers'] += rng.sample(sorted(NONSTR_OPS), rng.randint(1, 3))
+            if 'retry_after' in r['headers'] and 'prop_int' in r['headers']:
+                r['headers'].remove('prop_int')
+            rng.shuffle(r['headers'])
         if 'downloadable_as' in r['headers'] and 'viewable_as' in r['headers']:
             r['headers'].remove('viewable_as')
     if rng.random() < 0.3:
@@ -1197,7 +1261,8 @@ def run(rec):
         'drivers vlib/drivers/{wsgi,asgi}.py behave as PEP 3333 / ASGI HTTP servers (a server calls close() on the '
         'iterable in a finally; after a failed send every later send fails)',
         'reference model vlib/models/c05_response.py: a body source is set iff it is not None; sse supersedes text/data',
-        'header values are str()-able ASCII/latin-1 without control characters (falcon documents US-ASCII)',
+        'header values are ASCII/latin-1 without control characters (falcon documents US-ASCII); non-str values '
+        '(int, float, bool, str subclass, object with __str__) are accepted input and must arrive as str(value)',
         'bodiless statuses are exactly 100/101/204/304 as the statement lists them (102/103/205 not generated)',
         'a send failure on the response-start event precedes streaming: no close() demand (stream never begun)',
     ]
@@ -1265,6 +1330,7 @@ def run(rec):
         rec.floor('status_kind.' + sk, 50)
     rec.floor('random.cases', 200)
     rec.floor('prerender', 20)
+    rec.floor('mon.nonstr_header_value_as_str', 100)
 
 
 # ---- replay
